@@ -65,7 +65,7 @@ def sig_oracle(modn=(), int_msg=False, blocks=False, ok_malleations=(), extra=No
         if 'statements-swapped' in s.notes:
             ch.append('stmt')
         for nt in s.notes:
-            if nt.startswith('coordinated-') or nt == 'forged-extension':
+            if nt.startswith('coordinated-') or nt in ('forged-extension', 'related-key-adapted'):
                 ch.append(nt)
         nkey = sum(1 for f in ch if f in KEYFIELDS)
         if ((nkey and any(f not in KEYFIELDS for f in ch)) or nkey >= 2) and s.scheme not in ('pokor', 'sokor'):
